@@ -60,6 +60,15 @@ bool prop(Tape &t, Report &R) {
   uint32_t tail = t.next();
   uint32_t order = t.next();
   R.classify(permuteRows(s, order));
+  {
+    // reordering over several rows is off by default: switch it on in a third of the cases
+    uint32_t reo = t.next();
+    if (reo % 3 == 1) {
+      params.detailed.reorderingNbRows = 1 + (int)((reo >> 2) % 3);
+      params.detailed.reorderingMaxNbCells = 2 + (int)((reo >> 4) % 4);
+      R.classify("params:reordering");
+    }
+  }
   if (!judgeCase(s, params, R)) return false;
   if (tail % 32 == 1) {
     CircuitSpec big = genLargeCircuit(tail, o, 150);
